@@ -222,6 +222,65 @@ def h_step(ctx, holding=True, rest=('buy', 'LIMIT', 'STOP'), op=('X', 0)):
     ctx.event('step-complete')
 
 
+def h_relaxed_sells(ctx, kind='LIMIT', probe='LIMIT', cancel_first=False):
+    """binary64 side of the resting-sell bookkeeping (the statement quantifies over decimal quantities that are not exactly
+    representable): quantities and the base balance are relaxed floats (every plain arithmetic operation rounds: exact*(1+d),
+    |d| <= 2^-53; jesse's decimal helpers are exact on the decimal values their operands denote).  Two sells of `kind` rest, a
+    third sell (`probe`) is submitted: it must be accepted whenever the decimal total does not exceed the base held, and
+    rejected when it exceeds it by more than a relative 1e-9."""
+    from jesse.exceptions import InsufficientBalance
+    cfg = S.config_dict('spot', fee=0.001, balance=1e12)
+    api = ApiSession(cfg, symbols=(SYM,), price0=100.0)
+    ex = api.exchange
+    ex.assets['BTC'] = 1e12
+    p = api.positions[SYM]
+    p.qty = 1e12
+    p.entry_price = 100.0
+    p.opened_at = api.store.app.time
+    qs = [sx.relax(ctx.real('r%d_q' % i, 0.001, 100)) for i in range(2)]
+    rest = [api.submit(SYM, 'sell', kind, q, 150.0 if kind == 'LIMIT' else 50.0, True) for q in qs]
+    if cancel_first:
+        rest[0].cancel()
+        ctx.event('relaxed-cancel')
+    B0 = sx.relax(ctx.real('base0', 0.001, 1000))
+    ex.assets['BTC'] = B0
+    p.qty = B0
+    nq = sx.relax(ctx.real('nq', 0.001, 100))
+    # decimal (exact) total of what would rest on the sell side of the probe's kind after the submission
+    counted = [q for q, o in zip(qs, rest) if o.is_active and (o.type == probe or (probe == 'MARKET' and o.type == 'LIMIT'))]
+    total = sx.real_term(nq)
+    for q in counted:
+        total = total + sx.real_term(q)
+    total = sx.SymReal(total) if sx.is_sym(nq) else total
+    base = sx.SymReal(sx.real_term(B0)) if sx.is_sym(B0) else B0
+    if probe == 'MARKET':
+        api.set_price(SYM, 100.0)
+    try:
+        api.submit(SYM, 'sell', probe, nq, {'LIMIT': 150.0, 'STOP': 50.0, 'MARKET': 100.0}[probe], True)
+        raised = False
+    except InsufficientBalance:
+        raised = True
+    ctx.event('relaxed-rejected' if raised else 'relaxed-accepted')
+    if raised:
+        ctx.prove(total > base, 'C04:sell-within-the-base-held-is-not-rejected(binary64)', {'kind': kind, 'probe': probe})
+    else:
+        ctx.prove(total <= base * (1 + 1e-9), 'C04:oversell-is-rejected(binary64)', {'kind': kind, 'probe': probe})
+
+
+# decimal quantities whose binary64 sum is not the double nearest to their decimal sum (used to turn a violation of the relaxed-float
+# model, whose solver model carries free rounding errors, into a concrete binary64 witness before it is reported)
+_DECIMALS = [0.1, 0.2, 0.3, 0.7, 0.062, 0.937, 1.1, 2.2, 0.01, 0.05, 0.35, 4.35, 0.57, 1.005]
+
+
+def _binary64_witnesses():
+    from decimal import Decimal
+    for a in _DECIMALS:
+        for b in _DECIMALS:
+            for c in _DECIMALS:
+                yield {'r0_q': a, 'r1_q': b, 'nq': c, 'base0': float(Decimal(str(a)) + Decimal(str(b)) + Decimal(str(c)))}
+                yield {'r0_q': a, 'r1_q': b, 'nq': c, 'base0': float(Decimal(str(b)) + Decimal(str(c)))}
+
+
 def skeletons(length, types=('LIMIT', 'STOP', 'MARKET'), ros=(1,)):
     out = []
 
@@ -242,7 +301,7 @@ def skeletons(length, types=('LIMIT', 'STOP', 'MARKET'), ros=(1,)):
     return [s for s in out if s[0][1] == 'buy']
 
 
-JOBFN = {'h_history': h_history, 'h_step': h_step}
+JOBFN = {'h_history': h_history, 'h_step': h_step, 'h_relaxed_sells': h_relaxed_sells}
 
 
 def _name(s):
@@ -299,6 +358,12 @@ def _jobs(tier):
                     pass  # executing a resting sell while holding nothing: the exchange sells what is held (nothing)
                 jobs.append(Job('step_%s_%s_%s' % ('hold' if holding else 'flat', ''.join(r[0] for r in rest) or 'none', ''.join(str(x)[0] for x in op)), h_step,
                                 {'holding': holding, 'rest': list(rest), 'op': list(op)}, {'nlsat_fallback': True, 'prove_timeout_ms': 15000}))
+    # binary64 side of the resting-sell bookkeeping (relaxed-float model)
+    for kind in ('LIMIT', 'STOP'):
+        for probe in (kind, 'MARKET'):
+            for cf in (False, True):
+                jobs.append(Job('relaxed_%s_%s_%s' % (kind, probe, 'c' if cf else 'n'), h_relaxed_sells, {'kind': kind, 'probe': probe, 'cancel_first': cf},
+                                {'nlsat_fallback': True, 'prove_timeout_ms': 30000}))
     return jobs
 
 
@@ -316,10 +381,11 @@ def setup(tier, seed):
                        'exceeds the free quote or a sell plus the resting sells of its kind exceeds the base held.',
         'bounds': {'skeletons': len(jobs), 'history_length': '2-4 exhaustive (5 for LIMIT-only in thorough) + targeted cancel/resubmit histories of length 5-6',
                    'values': 'qty in [0.001,100], price in [1,1000], fee in [0,0.01], balance in [100,1e5]'},
-        'outside': ['histories longer than 6', 'float rounding and the Decimal helpers (modelled as exact +,-; see C17)', 'several symbols'],
+        'outside': ['histories longer than 6', 'binary64 rounding outside the resting-sell bookkeeping (there: relaxed-float model, each plain operation exact*(1+d), |d|<=2^-53, '
+                    'decimal helpers exact; buys multiply qty*price in floats by design); the Decimal helpers themselves (C17)', 'several symbols'],
         'stubs': list(jstubs.INSTALLED),
         'assumptions': ['floats as reals', 'a sell fill larger than the base held debits what is held (the only reading consistent with "never negative")'],
-        'must_reach': ['step-complete', 'pre-state-holding', 'pre-state-flat', 'C04:rejected-iff-overspend-or-oversell', 'rejected-submission', 'fill-buy', 'fill-sell', 'cancel-buy', 'cancel-sell'],
+        'must_reach': ['relaxed-accepted', 'relaxed-rejected', 'relaxed-cancel', 'step-complete', 'pre-state-holding', 'pre-state-flat', 'C04:rejected-iff-overspend-or-oversell', 'rejected-submission', 'fill-buy', 'fill-sell', 'cancel-buy', 'cancel-sell'],
     }
 
 
@@ -337,10 +403,19 @@ def signature(v):
 
 
 def make_witness(v):
-    fn = 'h_step' if v['job'].startswith('step_') else 'h_history'
+    fn = 'h_step' if v['job'].startswith('step_') else ('h_relaxed_sells' if v['job'].startswith('relaxed_') else 'h_history')
     return {'fn': fn, 'kwargs': v['bounds'], 'label': v['label'], 'model': v['model'], 'info': v.get('info')}
 
 
 def replay(w):
     S.install_monitors()
-    return replay_harness(JOBFN[w['fn']], w['kwargs'], w['model'], w['label'])
+    ok, msg = replay_harness(JOBFN[w['fn']], w['kwargs'], w['model'], w['label'])
+    if ok or w['fn'] != 'h_relaxed_sells':
+        return ok, msg
+    # the solver's model of a relaxed-float violation fixes the quantities but leaves the rounding errors free; look for decimal
+    # quantities whose real binary64 rounding realises it
+    for cand in _binary64_witnesses():
+        ok2, msg2 = replay_harness(JOBFN[w['fn']], w['kwargs'], cand, w['label'])
+        if ok2:
+            return True, 'binary64 witness %r: %s' % (cand, msg2)
+    return False, msg + ' (and no binary64 witness among %d decimal candidates)' % (2 * len(_DECIMALS) ** 3)
